@@ -329,9 +329,31 @@ func httpCmd(out *cq.Out, seed uint64, tier string) {
 			out.Case("oversized-content-length", true)
 			out.Count("oversized_length_answered", map[bool]int{true: 1, false: 0}[nr > 0])
 		}
+		// a very large but well-formed bulk (16 384 short events, ~300 KB of JSON, a replicated command of more than half a
+		// megabyte): it is answered - accepted or refused - and the node lives on
+		{
+			evs := make([][]byte, 16384)
+			for i := range evs {
+				evs[i] = []byte(fmt.Sprintf("big-%05d", i))
+			}
+			b, _ := json.Marshal(protocol.EventsBulk{Events: evs})
+			desc := map[string]interface{}{"seed": seed, "request": "POST /events/bulk with 16384 events of 9 bytes"}
+			resp, err := (&http.Client{Timeout: 180 * time.Second}).Post(api.URL+"/events/bulk", "application/json", bytes.NewReader(b))
+			out.Case("large-bulk", true)
+			if err != nil {
+				out.Violate("C11:dropped-connection:api:POST /events/bulk", fmt.Sprintf("a well-formed bulk of 16384 events got no HTTP response: %v", err), desc)
+			} else {
+				io.ReadAll(resp.Body)
+				resp.Body.Close()
+				out.Count(fmt.Sprintf("large_bulk_status_%d", resp.StatusCode), 1)
+				if resp.StatusCode >= 500 {
+					out.Violate("C11:internal-error-on-valid-request", fmt.Sprintf("a well-formed bulk of 16384 events is answered %d", resp.StatusCode), desc)
+				}
+			}
+		}
 		if !withTimeout(45*time.Second, func() {
 			if why := followUp(); why != "" {
-				out.Violate("C11:server-wedged-or-wrong-after-request", "after requests with unusual framing (chunked bodies, a Content-Length larger than the body): "+why, map[string]interface{}{"seed": seed})
+				out.Violate("C11:server-wedged-or-wrong-after-request", "after requests with unusual framing (chunked bodies, a Content-Length larger than the body, a bulk of 16384 events): "+why, map[string]interface{}{"seed": seed})
 			}
 		}) {
 			out.Violate("C11:server-wedged-or-wrong-after-request", "the node no longer answers after requests with unusual framing", map[string]interface{}{"seed": seed})
